@@ -774,6 +774,33 @@ func genCorpus() {
 		}
 	}
 
+	// --- cgo: a file that imports "C" and holds a call to rename, in a package without any syntax error (what the loader
+	// hands back for such a file is cgo's translation, not the user's text: untouched + message, or exactly the renames)
+	{
+		cgo := "package PKG\n\n/*\nstatic int twice(int x) { return 2 * x; }\n*/\nimport \"C\"\n\nimport \"fmt\"\n" + types2 +
+			"\n// Twice calls into C.\nfunc Twice(n int) string {\n\treturn fmt.Sprint(int(C.twice(C.int(n)))) // through cgo\n}\n\nfunc Eq1(a, b *S) bool { return deriveEqual(a, b) }\n"
+		dup := "\nfunc Eq2(a, b *S) bool { return deriveEqualAgain(a, b) } // renamed by -dedup\n"
+		conf := "\nfunc Eq3(a, b *T) bool { return deriveEqual(a, b) } // renamed by -autoname\n"
+		plain := "package PKG\n\n// Plain holds the clash, the cgo file does not.\n"
+		for _, v := range []struct {
+			what, flags, length string
+			files               map[string]string
+		}{
+			{"cgo file with a duplicate", "dedup", "shorter", map[string]string{"c.go": cgo + dup}},
+			{"cgo file with a conflict", "autoname", "longer", map[string]string{"c.go": cgo + conf}},
+			{"cgo file with a duplicate and a conflict", "both", "mixed", map[string]string{"c.go": cgo + dup + conf}},
+			{"cgo file next to a plain file that holds the clash", "dedup", "shorter", map[string]string{"c.go": cgo, "p.go": plain + "func Eq2(a, b *S) bool { return deriveEqualAgain(a, b) }\n"}},
+			{"cgo file without any clash (control)", "", "", map[string]string{"c.go": cgo}},
+		} {
+			modes := bystanders(v.files)
+			kind := "rename"
+			if v.flags == "" {
+				kind = "success"
+			}
+			add(caseT{Kind: kind, What: v.what, Renames: v.flags, Length: v.length, Gofmt: true}, v.files, modes)
+		}
+	}
+
 	// --- percent signs anywhere in a rewritten file (the text must never pass through a format string)
 	{
 		pct := "package PKG\n\nimport \"fmt\"\n" + types2 +
